@@ -675,7 +675,13 @@ pub fn check(case: &Case, st: &mut Stats) -> CheckResult {
   st.label(&format!("role_{:?}", case.role));
   if case.cli || matches!(case.role, Role::TestFile | Role::ProjectConfig) {
     st.label("via_cli");
-    return cli_body(case);
+    return cli_body(case).map_err(|f| {
+      if f.signature == "C11:cli:stack-overflow" && matches!(case.role, Role::Rule | Role::UtilRule) && may_contain_round_trip_cycle(&case.yaml) {
+        Fail::new("C11:stack-overflow:utility-cycle-through-relational-round-trip", f.message)
+      } else {
+        f
+      }
+    });
   }
   let r = run_isolated("C11", "documents", case, std::time::Duration::from_secs(20));
   match r {
@@ -687,7 +693,7 @@ pub fn check(case: &Case, st: &mut Stats) -> CheckResult {
     }
     Err(f) => {
       // classify by what the document contains, so that known classes can be told apart
-      let round_trip = matches!(case.planted.as_deref(), Some("inside+has" | "has+inside" | "precedes+follows"));
+      let round_trip = may_contain_round_trip_cycle(&case.yaml);
       let sig = match f.signature.as_str() {
         "crash:stack-overflow" if round_trip => "C11:stack-overflow:utility-cycle-through-relational-round-trip".to_string(),
         "crash:stack-overflow" => "C11:stack-overflow".to_string(),
@@ -720,4 +726,226 @@ pub fn run(cfg: &RunCfg) -> i32 {
   report.absorb("documents", o);
   cli::cleanup_work_root();
   report.finish()
+}
+
+// ---------------------------------------------------------------------------------------
+// byte decoder shared with the libFuzzer target (the byte string is the choice vector)
+
+pub struct Bytes<'a> {
+  data: &'a [u8],
+  at: usize,
+}
+
+impl<'a> Bytes<'a> {
+  pub fn new(data: &'a [u8]) -> Self {
+    Bytes { data, at: 0 }
+  }
+  fn u8(&mut self) -> u8 {
+    let b = self.data.get(self.at).copied().unwrap_or(0);
+    self.at += 1;
+    b
+  }
+  fn rest(&self) -> &'a [u8] {
+    self.data.get(self.at..).unwrap_or(&[])
+  }
+  fn v(&mut self, depth: usize) -> V {
+    match self.u8() % if depth > 3 { 4 } else { 7 } {
+      0 | 1 => V::Str(self.u8()),
+      2 => V::Num(self.u8()),
+      3 => V::Bool(self.u8() % 2 == 0),
+      4 => V::Seq((0..self.u8() % 3).map(|_| self.v(depth + 1)).collect()),
+      _ => V::Rule(Box::new(self.rule(depth + 1))),
+    }
+  }
+  fn rule(&mut self, depth: usize) -> RuleV {
+    let n = 1 + self.u8() % 3;
+    RuleV {
+      keys: (0..n).map(|_| (self.u8() % RULE_KEYS.len() as u8, self.v(depth))).collect(),
+    }
+  }
+  fn doc(&mut self) -> DocV {
+    let rule = self.rule(0);
+    let utils = (0..self.u8() % 3).map(|_| (self.u8(), self.rule(1))).collect();
+    let constraints = (0..self.u8() % 2).map(|_| (self.u8(), self.rule(1))).collect();
+    let transforms = (0..self.u8() % 4).map(|_| (self.u8() % 5, self.u8(), self.u8(), self.u8(), self.u8())).collect();
+    let rewriters = (0..self.u8() % 2)
+      .map(|_| {
+        let a = self.u8();
+        let r = self.rule(1);
+        let f = self.u8();
+        (a, r, (f % 3 != 0).then_some(f))
+      })
+      .collect();
+    let fix = match self.u8() % 3 {
+      0 => None,
+      _ => {
+        let f = self.u8();
+        let obj = self.u8() % 2 == 0;
+        let ex = (self.u8() % 3 == 0).then(|| self.rule(1));
+        Some((f, obj, ex))
+      }
+    };
+    let lang = self.u8();
+    let misc = (0..self.u8() % 3).map(|_| (self.u8() % 10, self.v(2))).collect();
+    let c = self.u8();
+    // no planted cycles here: the round-trip overflow is a listed finding and would end every campaign
+    let _ = c;
+    let depth_bomb = (self.u8() % 40 == 0).then(|| self.u8() % 4);
+    DocV {
+      rule,
+      utils,
+      constraints,
+      transforms,
+      rewriters,
+      fix,
+      lang,
+      misc,
+      cycle: None,
+      depth_bomb,
+    }
+  }
+}
+
+/// bytes -> (role, YAML text). First byte: mode (structured / seed mutation / raw).
+pub fn decode_bytes(data: &[u8]) -> Case {
+  let mut b = Bytes::new(data);
+  let mode = b.u8();
+  let role = role_of(b.u8() % 6);
+  match mode % 4 {
+    0 | 1 => {
+      let n = 1 + b.u8() % 2;
+      let text = (0..n)
+        .map(|i| serde_yaml::to_string(&render_doc(&b.doc(), i as usize)).unwrap_or_default())
+        .collect::<Vec<_>>()
+        .join("---\n");
+      Case {
+        role,
+        yaml: text,
+        cli: false,
+        planted: None,
+      }
+    }
+    2 => {
+      let all = seeds();
+      let seed = b.u8();
+      let muts: Vec<(u8, u16, u8)> = (0..1 + b.u8() % 5).map(|_| (b.u8() % 6, u16::from_le_bytes([b.u8(), b.u8()]), b.u8())).collect();
+      let ch = Choice::Mutated {
+        seed,
+        muts,
+        role: 0,
+        cli: false,
+      };
+      let _ = all;
+      let mut st = Stats::new();
+      let mut c = interpret(&ch, &mut st).expect("interpret");
+      c.role = role;
+      c
+    }
+    _ => Case {
+      role,
+      yaml: String::from_utf8_lossy(b.rest()).into_owned(),
+      cli: false,
+      planted: None,
+    },
+  }
+}
+
+/// Structural recognition of the listed round-trip cycle finding: some document has a utility
+/// (local, or global when every document is a utility) that reaches itself through `matches`
+/// along a path whose relational operators contain inside+has or precedes+follows.
+pub fn may_contain_round_trip_cycle(yaml: &str) -> bool {
+  use serde::Deserialize;
+  use std::collections::BTreeMap;
+  type Ops = u8; // bit 0 inside, 1 has, 2 precedes, 3 follows
+  fn refs(v: &Y, ops: Ops, out: &mut Vec<(String, Ops)>) {
+    match v {
+      Y::Mapping(m) => {
+        for (k, val) in m {
+          let key = k.as_str().unwrap_or("");
+          match key {
+            "matches" => {
+              if let Some(t) = val.as_str() {
+                out.push((t.to_string(), ops));
+              }
+            }
+            "inside" => refs(val, ops | 1, out),
+            "has" => refs(val, ops | 2, out),
+            "precedes" => refs(val, ops | 4, out),
+            "follows" => refs(val, ops | 8, out),
+            _ => refs(val, ops, out),
+          }
+        }
+      }
+      Y::Sequence(s) => s.iter().for_each(|x| refs(x, ops, out)),
+      _ => {}
+    }
+  }
+  fn round_trip(ops: Ops) -> bool {
+    ops & 3 == 3 || ops & 12 == 12
+  }
+  fn cyclic(graph: &BTreeMap<String, Vec<(String, Ops)>>) -> bool {
+    fn walk(graph: &BTreeMap<String, Vec<(String, Ops)>>, start: &str, at: &str, ops: Ops, path: &mut Vec<String>) -> bool {
+      for (t, o) in graph.get(at).map(|v| v.as_slice()).unwrap_or(&[]) {
+        let acc = ops | o;
+        if t == start {
+          if round_trip(acc) {
+            return true;
+          }
+          continue;
+        }
+        if path.iter().any(|p| p == t) || path.len() > 6 {
+          continue;
+        }
+        path.push(t.clone());
+        let r = walk(graph, start, t, acc, path);
+        path.pop();
+        if r {
+          return true;
+        }
+      }
+      false
+    }
+    graph.keys().any(|k| walk(graph, k, k, 0, &mut vec![k.clone()]))
+  }
+  let mut globals: BTreeMap<String, Vec<(String, Ops)>> = BTreeMap::new();
+  for de in serde_yaml::Deserializer::from_str(yaml) {
+    let Ok(doc) = Y::deserialize(de) else {
+      return false;
+    };
+    let Y::Mapping(m) = &doc else { continue };
+    let mut graph: BTreeMap<String, Vec<(String, Ops)>> = BTreeMap::new();
+    if let Some(Y::Mapping(utils)) = m.get("utils") {
+      for (k, v) in utils {
+        let mut out = vec![];
+        refs(v, 0, &mut out);
+        graph.insert(k.as_str().unwrap_or("").to_string(), out);
+      }
+    }
+    if cyclic(&graph) {
+      return true;
+    }
+    // the document itself as a (global) utility
+    if let (Some(id), Some(rule)) = (m.get("id").and_then(|i| i.as_str()), m.get("rule")) {
+      let mut out = vec![];
+      refs(rule, 0, &mut out);
+      // local utilities are reachable from the global one: fold their edges in
+      for (t, o) in out.clone() {
+        if let Some(inner) = graph.get(&t) {
+          out.extend(inner.iter().map(|(t2, o2)| (t2.clone(), o | o2)));
+        }
+      }
+      globals.entry(id.to_string()).or_default().extend(out);
+    }
+  }
+  cyclic(&globals)
+}
+
+/// the body run inside the fuzz target: panics propagate (libFuzzer reports them as crashes)
+pub fn fuzz_one(data: &[u8]) {
+  let case = decode_bytes(data);
+  if may_contain_round_trip_cycle(&case.yaml) {
+    return;
+  }
+  let mut st = Stats::new();
+  let _ = body(&case, &mut st);
 }
